@@ -200,12 +200,16 @@ func (t *flatCallTracer) CaptureExit(output []byte, gasUsed uint64, err error) {
 	if t.config.IncludePrecompiles {
 		return
 	}
+	// call has been nested in parent
+	parent := t.tracer.callstack[len(t.tracer.callstack)-1]
+	if parent.joinPoint != types.JoinPointRunType_Unknown || len(parent.Calls) == 0 {
+		// the call was issued by a running Aspect and is filed under its frame, not in parent.Calls
+		return
+	}
 	var (
-		// call has been nested in parent
-		parent = t.tracer.callstack[len(t.tracer.callstack)-1]
-		call   = parent.Calls[len(parent.Calls)-1]
-		typ    = call.Type
-		to     = call.To
+		call = parent.Calls[len(parent.Calls)-1]
+		typ  = call.Type
+		to   = call.To
 	)
 	if typ == vm.CALL || typ == vm.STATICCALL {
 		if t.isPrecompiled(*to) {
